@@ -123,10 +123,54 @@ class AstToSqlVisitor(visitor.NodeVisitor):
         ":meta private:"
         return "%"
 
+    def _sql_precedence(self, node: ast._Node) -> int:
+        """
+        Precedence of the SQL expression that `node` is rendered as, from low
+        (binds loosest) to high. Used to decide where parentheses are needed.
+
+        :meta private:
+        """
+        if isinstance(node, ast.BoolOp):
+            return 1 if isinstance(node.op, ast.Or) else 2
+        if isinstance(node, ast.UnaryOp):
+            return 3 if isinstance(node.op, ast.Not) else 8
+        if isinstance(node, ast.Compare):
+            return 4
+        if isinstance(node, ast.BinOp):
+            return 6 if isinstance(node.op, (ast.Add, ast.Sub)) else 7
+        if isinstance(node, ast.Call):
+            # Some functions are rendered as an operator expression:
+            func_name = node.func.name.lower()
+            if func_name in ("contains", "startswith", "endswith", "hassubset"):
+                return 4  # x LIKE y, x = y
+            if func_name == "concat":
+                return 5  # x || y
+            if func_name == "indexof":
+                return 6  # POSITION(..) - 1
+        return 10
+
+    def _visit_operand(
+        self, node: ast._Node, parent_precedence: int, is_right_operand: bool = False
+    ) -> str:
+        """
+        Visit `node` as operand of an operator with the given precedence, and
+        wrap it in parentheses if it would otherwise be regrouped.
+
+        :meta private:
+        """
+        res = self.visit(node)
+        precedence = self._sql_precedence(node)
+        if precedence < parent_precedence or (
+            is_right_operand and precedence == parent_precedence
+        ):
+            res = f"({res})"
+        return res
+
     def visit_BinOp(self, node: ast.BinOp) -> str:
         ":meta private:"
-        left = self.visit(node.left)
-        right = self.visit(node.right)
+        precedence = self._sql_precedence(node)
+        left = self._visit_operand(node.left, precedence)
+        right = self._visit_operand(node.right, precedence, is_right_operand=True)
         op = self.visit(node.op)
 
         return f"{left} {op} {right}"
